@@ -24,7 +24,9 @@
 (*                      both memory databases nil; then the age checks),    *)
 (*                      then Close, then segment.EvictFamily                *)
 (*   Close            = CloseBegin (takes the mutex), CloseWait             *)
-(*                      (flushCondition.Wait WITH the mutex held),          *)
+(*                      (before the repair: flushCondition.Wait WITH the    *)
+(*                      mutex held; now the mutex is taken when no flush    *)
+(*                      runs),                                              *)
 (*                      CloseCommit / CloseAck / CloseNext for the          *)
 (*                      immutable then the mutable database, CloseEnd       *)
 (* Memory databases are entities of their own (`Db`): a handle taken by a   *)
@@ -32,7 +34,7 @@
 (* index keeps the slot range of a database under a key (`dbStamp`, its     *)
 (* creation time) that two databases may share.                             *)
 (* Where: data_family.go Flush 259-317, Evict 346-378, WriteRows 537-575    *)
-(* (window 539-548), Close 635-667 (Wait under the mutex: 640-642),         *)
+(* (window 539-548), Close 635-673 (wait for the flush: 639-647),           *)
 (* flushMemoryDatabase 669-712; memdb/database.go 140 (createdTime),        *)
 (* 208 / 372 / 443 (range by createdTime); memdb/index_database.go 133-150  *)
 (* (Cleanup clears the range by createdTime).                               *)
@@ -48,15 +50,15 @@ CONSTANTS
   \* --- behaviour of the code that breaks a promise (code value in brackets)
   DoubleWindow,     \* [TRUE]  the flushed file becomes visible (kv commit) before the flushed memory database is
                     \*         closed and dropped: a reader in between sees the rows twice (known finding C11-K8)
-  CloseLocksFirst,  \* [TRUE]  Close takes the family mutex and then waits for a running flush, which needs the
-                    \*         same mutex for its last step
+  CloseLocksFirst,  \* [FALSE since the repair, TRUE before] Close takes the family mutex and then waits for a running
+                    \*         flush, which needs the same mutex for its last step
   RetryFailed,      \* [FALSE] a flush that failed after the freeze leaves the immutable database in place; later
                     \*         Flush calls return at once ("immutable not nil"), only Close flushes it
   ClosedRejects,    \* [FALSE] WriteRows on a closed (evicted) object is accepted silently
   AtomicWrite,      \* [FALSE] GetOrCreateMemoryDatabase and AcquireWrite are two steps: the database can be frozen,
                     \*         flushed and closed in between
   AtomicEvict,      \* [FALSE] the checks of Evict (ref, memory databases) and the Close are separate steps
-  UniqueStamp,      \* [FALSE] the shard's memory index keeps the slot range of a memory database under its creation
+  UniqueStamp,      \* [TRUE since the repair, FALSE before] FALSE: the shard's memory index keeps the slot range of a memory database under its creation
                     \*         time (fasttime, 5 ms ticks): two databases created in one tick share one entry, and the
                     \*         Close of either deletes it -- the rows of the other become unreadable and are skipped
                     \*         by its flush
